@@ -153,6 +153,8 @@ struct UnitCfg {
     /// parameter and local names of the function, in declaration order, as recorded when the
     /// contract was last baselined (rule A1: annotations follow pure renames)
     locals_base: Vec<String>,
+    /// M1: the signature (types only) the contract was written against
+    sig_base: String,
 }
 
 struct Cfg {
@@ -182,6 +184,10 @@ struct Cfg {
     vacuity_probe: bool,
     /// I1 switched off for this run (fallback when written-out helper text does not compile)
     no_inline_run: bool,
+    /// I1 is not applied to these contract-less helpers (unit ids)
+    no_inline_ids: HashSet<String>,
+    /// second pass: effect keys that belong to contract-less functions of OTHER files
+    auto_keys: HashSet<String>,
 }
 
 /// does the closure body contain a `return` or `?` of its own (not inside a nested closure / item)?
@@ -201,6 +207,11 @@ fn leaves_closure(body: &Expr) -> bool {
     let mut v = V(false);
     v.visit_expr(body);
     v.0
+}
+
+/// R26 helper: nothing disqualifies the copied arm body at the moment
+fn leaves_closure_only_break(_e: &Expr) -> bool {
+    false
 }
 
 /// I1 applicability: no `return` / `?` (they would leave the caller) and no loops (a loop needs a
@@ -229,6 +240,338 @@ fn block_leaves(b: &Block) -> bool {
     let mut v = V(false);
     v.visit_block(b);
     v.0
+}
+
+/// I1 applicability classes: None = has a loop (needs a contract of its own); Some(0) = never
+/// leaves early; Some(1) = leaves only through `?` and `return Err(..)` (means the same where the
+/// call is the operand of a `?` in a function with the same error type); Some(2) = other `return`s
+/// (means the same only where the call is the tail expression of a function with the same
+/// return type)
+fn leave_kind(b: &Block) -> Option<u8> {
+    struct V { lp: bool, k: u8 }
+    impl<'ast> Visit<'ast> for V {
+        fn visit_expr_return(&mut self, r: &'ast ExprReturn) {
+            let is_err = match r.expr.as_deref() {
+                Some(Expr::Call(c)) => matches!(&*c.func, Expr::Path(p) if p.path.is_ident("Err")),
+                _ => false,
+            };
+            self.k = self.k.max(if is_err { 1 } else { 2 });
+            visit::visit_expr_return(self, r);
+        }
+        fn visit_expr_loop(&mut self, _r: &'ast ExprLoop) { self.lp = true; }
+        fn visit_expr_while(&mut self, _r: &'ast ExprWhile) { self.lp = true; }
+        fn visit_expr_for_loop(&mut self, _r: &'ast ExprForLoop) { self.lp = true; }
+        fn visit_expr_try(&mut self, r: &'ast ExprTry) {
+            self.k = self.k.max(1);
+            visit::visit_expr_try(self, r);
+        }
+        fn visit_expr_closure(&mut self, _c: &'ast ExprClosure) {}
+        fn visit_expr_async(&mut self, _c: &'ast ExprAsync) { self.k = 2; self.lp = true; }
+        fn visit_item(&mut self, _i: &'ast Item) {}
+    }
+    let mut v = V { lp: false, k: 0 };
+    v.visit_block(b);
+    if v.lp { None } else { Some(v.k) }
+}
+
+/// the part of a (token-normalised) return type that decides what `?` / `return Err(..)` mean:
+/// the Result alias path, plus the explicit error type when there is one
+fn err_key(ret_norm: &str) -> Option<String> {
+    let t: String = ret_norm.trim_start_matches("->").chars().filter(|c| !c.is_whitespace()).collect();
+    let lt = t.find('<')?;
+    let head = &t[..lt];
+    if !head.ends_with("Result") || !t.ends_with('>') {
+        return None;
+    }
+    let args = &t[lt + 1..t.len() - 1];
+    let mut depth = 0i32;
+    let mut second = None;
+    for (i, c) in args.char_indices() {
+        match c {
+            '<' | '(' | '[' => depth += 1,
+            '>' | ')' | ']' => depth -= 1,
+            ',' if depth == 0 && second.is_none() => second = Some(args[i + 1..].to_string()),
+            _ => {}
+        }
+    }
+    Some(format!("{}|{}", head, second.unwrap_or_default()))
+}
+
+/// M1: asyncness, parameter types and return type of a function, token-normalised
+fn sig_key(sig: &Signature) -> String {
+    let mut t = String::new();
+    if sig.asyncness.is_some() {
+        t.push_str("async ");
+    }
+    for a in sig.inputs.iter() {
+        match a {
+            FnArg::Typed(pt) => t.push_str(&pt.ty.to_token_stream().to_string()),
+            FnArg::Receiver(r) => t.push_str(&r.to_token_stream().to_string()),
+        }
+        t.push_str(" , ");
+    }
+    t.push_str(&sig.output.to_token_stream().to_string());
+    t
+}
+
+
+/// I1r: rewrite the body of a contract-less helper that leaves early (`return`, `?`) into an
+/// expression WITHOUT early exits that has the same value - the rest of the block is moved into
+/// the branches that continue (`if c { return X; } REST` -> `if c { X } else { REST }`,
+/// `let p = e?; REST` -> `match e { Ok(v) => { let p = v; REST }, Err(e) => Err(e.into()) }`,
+/// `let p = match e { P => v, _ => return X }; REST` -> `match e { P => { let p = v; REST }, _ => X }`).
+/// Purely syntactic; gives up (None) on any shape it does not know.  The result can be written
+/// out at ANY call site (rule I1), not only under a `?` or in tail position.
+struct Elim<'a> {
+    src: &'a str,
+    edits: &'a [Edit],
+    /// what `?` works on in this function: 1 = Result, 2 = Option
+    try_kind: u8,
+    fuel: usize,
+    /// a piece of text was taken from inside a larger replacement made by another rule: the
+    /// pieces would not add up to that rule's output - give up
+    bad: std::cell::Cell<bool>,
+}
+
+#[derive(Clone, Copy)]
+enum WorkItem<'s> {
+    Stmts(&'s [Stmt], bool),
+    One(&'s Expr, bool),
+}
+
+impl<'a> Elim<'a> {
+    fn t(&self, r: (usize, usize)) -> String {
+        if self.edits.iter().any(|e| e.start < e.end && e.start <= r.0 && r.1 <= e.end && (e.start, e.end) != r) {
+            self.bad.set(true);
+        }
+        if self.edits.iter().any(|e| (e.start < r.0 && r.0 < e.end) || (e.start < r.1 && r.1 < e.end)) {
+            self.bad.set(true);
+        }
+        let mut errs = vec![];
+        let out = apply_edits(self.src, r, self.edits, &mut errs).0;
+        if !errs.is_empty() {
+            self.bad.set(true);
+        }
+        out
+    }
+    fn stmt_leaves(s: &Stmt) -> bool {
+        match s {
+            Stmt::Expr(e, _) => leaves_closure(e),
+            Stmt::Local(l) => l.init.as_ref().map(|i| leaves_closure(&i.expr) || i.diverge.as_ref().map(|d| leaves_closure(&d.1)).unwrap_or(false)).unwrap_or(false),
+            Stmt::Macro(_) => false,
+            Stmt::Item(_) => false,
+        }
+    }
+    fn branch<'s>(e: &'s Expr, value: bool) -> WorkItem<'s> {
+        match e {
+            Expr::Block(b) if b.label.is_none() && b.attrs.is_empty() => WorkItem::Stmts(&b.block.stmts, value),
+            other => WorkItem::One(other, value),
+        }
+    }
+    fn try_arm(&self) -> Option<(&'static str, &'static str)> {
+        match self.try_kind {
+            1 => Some(("Ok", "Err(__e) => Err(__e.into())")),
+            2 => Some(("Some", "None => None")),
+            _ => None,
+        }
+    }
+    /// `work`: what is still to be evaluated, in order; the LAST item's flag says whether its tail
+    /// expression is the function's value
+    fn seq<'s>(&mut self, work: &[WorkItem<'s>]) -> Option<String> {
+        if self.fuel == 0 {
+            return None;
+        }
+        self.fuel -= 1;
+        let mut out = String::from("{ ");
+        for (wi, w) in work.iter().enumerate() {
+            let (stmts, one, value): (&[Stmt], Option<&Expr>, bool) = match w {
+                WorkItem::Stmts(s, v) => (s, None, *v),
+                WorkItem::One(e, v) => (&[], Some(*e), *v),
+            };
+            let n = stmts.len() + if one.is_some() { 1 } else { 0 };
+            for i in 0..n {
+                // the i-th element as (expr-or-stmt, is tail)
+                let st: Option<&Stmt> = if one.is_some() { None } else { Some(&stmts[i]) };
+                let (expr, is_tail): (Option<&Expr>, bool) = match (st, one) {
+                    (Some(Stmt::Expr(e, semi)), _) => (Some(e), semi.is_none() && i + 1 == n),
+                    (None, Some(e)) => (Some(e), true),
+                    _ => (None, false),
+                };
+                let is_value = is_tail && value;
+                let leaves = match (st, one) {
+                    (Some(s), _) => Self::stmt_leaves(s),
+                    (None, Some(e)) => leaves_closure(e),
+                    _ => false,
+                };
+                // what follows this element
+                let mut rest: Vec<WorkItem<'s>> = vec![];
+                if one.is_none() && i + 1 < n {
+                    rest.push(WorkItem::Stmts(&stmts[i + 1..], value));
+                }
+                rest.extend_from_slice(&work[wi + 1..]);
+                if !leaves {
+                    match (st, expr) {
+                        (_, Some(e)) if is_tail => {
+                            out.push_str(&self.t(range_of(e)));
+                            if !is_value || !rest.is_empty() {
+                                out.push_str("; ");
+                            }
+                        }
+                        (Some(s), _) => {
+                            out.push_str(&self.t(range_of(s)));
+                            out.push(' ');
+                        }
+                        _ => return None,
+                    }
+                    continue;
+                }
+                // the first element that can leave: the rest moves into its continuing branches
+                let tail_value = is_value && rest.is_empty();
+                if let Some(e) = expr {
+                    match e {
+                        Expr::Return(r) => {
+                            match &r.expr {
+                                Some(v) => {
+                                    if leaves_closure(v) {
+                                        return None;
+                                    }
+                                    out.push_str(&self.t(range_of(&**v)));
+                                }
+                                None => out.push_str("()"),
+                            }
+                            out.push_str(" }");
+                            return Some(out);
+                        }
+                        Expr::If(ife) if ife.attrs.is_empty() => {
+                            if leaves_closure(&ife.cond) {
+                                return None;
+                            }
+                            let mut a = vec![WorkItem::Stmts(&ife.then_branch.stmts, tail_value)];
+                            a.extend_from_slice(&rest);
+                            let mut b = match &ife.else_branch {
+                                Some((_, eb)) => vec![Self::branch(eb, tail_value)],
+                                None => vec![],
+                            };
+                            b.extend_from_slice(&rest);
+                            if b.is_empty() {
+                                return None;
+                            }
+                            let ta = self.seq(&a)?;
+                            let tb = self.seq(&b)?;
+                            out.push_str(&format!("if {} {} else {} }}", self.t(range_of(&*ife.cond)), ta, tb));
+                            return Some(out);
+                        }
+                        Expr::Match(m) if m.attrs.is_empty() => {
+                            if leaves_closure(&m.expr) {
+                                return None;
+                            }
+                            let mut arms = String::new();
+                            for arm in &m.arms {
+                                if arm.guard.as_ref().map(|g| leaves_closure(&g.1)).unwrap_or(false) {
+                                    return None;
+                                }
+                                let mut a = vec![Self::branch(&arm.body, tail_value)];
+                                a.extend_from_slice(&rest);
+                                let ta = self.seq(&a)?;
+                                let g = arm.guard.as_ref().map(|g| format!(" if {}", self.t(range_of(&*g.1)))).unwrap_or_default();
+                                arms.push_str(&format!("{}{} => {}, ", self.t(range_of(&arm.pat)), g, ta));
+                            }
+                            out.push_str(&format!("match {} {{ {} }} }}", self.t(range_of(&*m.expr)), arms));
+                            return Some(out);
+                        }
+                        Expr::Try(t) if !tail_value => {
+                            // `X?;` in statement position
+                            if leaves_closure(&t.expr) || rest.is_empty() {
+                                return None;
+                            }
+                            let (okc, errarm) = self.try_arm()?;
+                            let tr = self.seq(&rest)?;
+                            out.push_str(&format!("match {} {{ {}(_) => {}, {} }} }}", self.t(range_of(&*t.expr)), okc, tr, errarm));
+                            return Some(out);
+                        }
+                        _ => return None,
+                    }
+                }
+                if let Some(Stmt::Local(l)) = st {
+                    if !l.attrs.is_empty() || rest.is_empty() {
+                        return None;
+                    }
+                    let init = l.init.as_ref()?;
+                    let pat = self.t(range_of(&l.pat));
+                    if let Some((_, els)) = &init.diverge {
+                        // `let PAT = E else { .. return .. };`
+                        if leaves_closure(&init.expr) {
+                            return None;
+                        }
+                        let tr = self.seq(&rest)?;
+                        let te = self.seq(&[Self::branch(els, true)])?;
+                        out.push_str(&format!("if let {} = {} {} else {} }}", pat, self.t(range_of(&*init.expr)), tr, te));
+                        return Some(out);
+                    }
+                    match &*init.expr {
+                        Expr::Try(t) => {
+                            if leaves_closure(&t.expr) {
+                                return None;
+                            }
+                            let (okc, errarm) = self.try_arm()?;
+                            let tr = self.seq(&rest)?;
+                            out.push_str(&format!("match {} {{ {}(__v) => {{ let {} = __v; {} }}, {} }} }}", self.t(range_of(&*t.expr)), okc, pat, tr, errarm));
+                            return Some(out);
+                        }
+                        Expr::Match(m) if m.attrs.is_empty() => {
+                            if leaves_closure(&m.expr) {
+                                return None;
+                            }
+                            let mut arms = String::new();
+                            for arm in &m.arms {
+                                if arm.guard.as_ref().map(|g| leaves_closure(&g.1)).unwrap_or(false) {
+                                    return None;
+                                }
+                                let g = arm.guard.as_ref().map(|g| format!(" if {}", self.t(range_of(&*g.1)))).unwrap_or_default();
+                                let body = if leaves_closure(&arm.body) {
+                                    // the arm must leave on every path: its own value is then the function's
+                                    if !Self::always_leaves(&arm.body) {
+                                        return None;
+                                    }
+                                    self.seq(&[Self::branch(&arm.body, true)])?
+                                } else {
+                                    let tr = self.seq(&rest)?;
+                                    format!("{{ let {} = {}; {} }}", pat, self.t(range_of(&*arm.body)), tr)
+                                };
+                                arms.push_str(&format!("{}{} => {}, ", self.t(range_of(&arm.pat)), g, body));
+                            }
+                            out.push_str(&format!("match {} {{ {} }} }}", self.t(range_of(&*m.expr)), arms));
+                            return Some(out);
+                        }
+                        _ => return None,
+                    }
+                }
+                return None;
+            }
+        }
+        // nothing leaves: the block as it is (a body without tail expression has value `()`)
+        out.push('}');
+        Some(out)
+    }
+    /// every path through `e` ends in `return` (conservative)
+    fn always_leaves(e: &Expr) -> bool {
+        match e {
+            Expr::Return(_) => true,
+            Expr::Block(b) => match b.block.stmts.last() {
+                Some(Stmt::Expr(x, _)) => Self::always_leaves(x),
+                _ => false,
+            },
+            Expr::If(i) => match &i.else_branch {
+                Some((_, eb)) => {
+                    let th = match i.then_branch.stmts.last() { Some(Stmt::Expr(x, _)) => Self::always_leaves(x), _ => false };
+                    th && Self::always_leaves(eb)
+                }
+                None => false,
+            },
+            Expr::Match(m) => m.arms.iter().all(|a| Self::always_leaves(&a.body)),
+            _ => false,
+        }
+    }
 }
 
 /// A1: parameter names, then `let` / `for` / `if let` / match-arm bound names, in source order
@@ -302,6 +645,7 @@ fn unit_from(v: &Value) -> UnitCfg {
     u.keep_generics = v.get("keep_generics").and_then(|x| x.as_bool()).unwrap_or(false);
     u.drop_body = v.get("drop_body").and_then(|x| x.as_bool()).unwrap_or(false);
     u.try_conv = v.get("try_conv").and_then(|x| x.as_bool()).unwrap_or(false);
+    u.sig_base = jstr(v, "sig_base");
     u.locals_base = v.get("locals").and_then(|x| x.as_array()).map(|a| a.iter().map(|x| x.as_str().unwrap_or("").to_string()).collect()).unwrap_or_default();
     let bare = v.get("bare").and_then(|x| x.as_bool()).unwrap_or(false);
     if let Some(a) = v.get("str_slices").and_then(|x| x.as_array()) {
@@ -364,6 +708,12 @@ struct FileCtx<'a> {
     no_inline: bool,
     /// no vacuity probe for the function being processed (an unlisted nested fn)
     no_probe: bool,
+    /// T1: "unit id|why" - places where the proof context of a unit lost information relative to
+    /// what a contract would give: a call to a function without a contract that was not written
+    /// out (I1), a loop without invariant, a dropped annotation, an unspecified task body
+    taints: Vec<String>,
+    /// M1: module-level functions that carry the contract of a former nested fn
+    rebound_names: HashSet<String>,
 }
 
 #[derive(Clone)]
@@ -375,6 +725,16 @@ struct InlineInfo {
     world: String,
     /// for an associated function: the impl's type key (call sites are `Self::f(..)` / `Type::f(..)`)
     owner: Option<String>,
+    /// T1: what the helper's own body lost (calls to other contract-less functions, ...)
+    taints: Vec<String>,
+    /// `leave_kind` of the body, the token-normalised return type, `async fn`
+    leaves: u8,
+    ret_norm: String,
+    is_async: bool,
+    /// I1m (methods): 0 = no receiver, 1 = `&self`, 2 = `&mut self`, 3 = `self`
+    recv: u8,
+    /// I1r: the body with its early exits written out as branches (None: shape not handled)
+    body_flat: Option<String>,
 }
 
 impl<'a> FileCtx<'a> {
@@ -428,6 +788,15 @@ struct BodyV<'a, 'b> {
     calls_seen: Vec<String>,
     claimed_hints: HashSet<usize>,
     closure_counts: HashMap<String, usize>,
+    /// I1: token-normalised return type of the function, the call that is its tail expression,
+    /// the call that is the operand of the `?` being visited
+    ret_norm: String,
+    tail_call: Option<(usize, usize)>,
+    try_operand: Option<(usize, usize)>,
+    /// the call that is the whole body of the closure being visited (`|x| helper(&x)`)
+    closure_tail: Option<(usize, usize)>,
+    /// R12b: parameters whose type is an `AsRef<..>` generic instantiated at its reference type
+    asref_idents: HashSet<String>,
 }
 
 fn path_key2(p: &Path) -> (Option<String>, String) {
@@ -601,6 +970,7 @@ impl<'a, 'b> BodyV<'a, 'b> {
             // a placeholder R4 does not model ({:x}, {:04}, {:?} ...): the result is an
             // UNCONSTRAINED string (nothing can be proved about it); explicit args are evaluated
             self.fc.degraded.push(format!("unit {}: format!({:?}) is treated as an unconstrained string", self.outer_name, s));
+            self.taint(format!("format!({:?}) is treated as an unconstrained string", s));
             if rest.is_empty() {
                 self.fc.edit(whole.0, whole.1, "opaque_msg!()", "R4.opaque_value");
             } else {
@@ -643,6 +1013,7 @@ impl<'a, 'b> BodyV<'a, 'b> {
             let types: Vec<String> = spec.get("types").and_then(|x| x.as_array()).map(|a| a.iter().map(|x| x.as_str().unwrap_or("").to_string()).collect()).unwrap_or_default();
             if types.len() != c.inputs.len() {
                 self.fc.degraded.push(format!("unit {}: closure {key} has {} parameters, the contract expects {}", self.outer_name, c.inputs.len(), types.len()));
+                self.taint(format!("closure {key}: contract dropped (parameter count)"));
                 return;
             }
             // parameter names come from the source; `$k` in the contract is the k-th parameter
@@ -658,6 +1029,7 @@ impl<'a, 'b> BodyV<'a, 'b> {
                     Pat::Wild(_) => format!("_w{i}"),
                     _ => {
                         self.fc.degraded.push(format!("unit {}: closure {key}: parameter {} is a pattern, not a name", self.outer_name, i + 1));
+                        self.taint(format!("closure {key}: contract dropped (pattern parameter)"));
                         return;
                     }
                 };
@@ -693,6 +1065,12 @@ impl<'a, 'b> BodyV<'a, 'b> {
                 self.fc.edit_ord(r.1, r.1, " }", "R7.closure.brace", 9);
             }
         }
+    }
+
+    /// T1: the proof context of the current unit lost information here
+    fn taint(&mut self, why: String) {
+        let id = self.unit.as_ref().map(|u| u.id.clone()).unwrap_or_else(|| self.outer_name.clone());
+        self.fc.taints.push(format!("{id}|{why}"));
     }
 
     fn note_call(&mut self, name: &str) {
@@ -891,6 +1269,14 @@ impl<'a, 'b, 'ast> Visit<'ast> for BodyV<'a, 'b> {
     }
 
     fn visit_expr_try(&mut self, e: &'ast ExprTry) {
+        if self.closure_depth == 0 {
+            self.try_operand = match &*e.expr {
+                Expr::Call(c) => Some(range_of(c)),
+                Expr::MethodCall(c) => Some(range_of(c)),
+                Expr::Await(a) => match &*a.base { Expr::Call(c) => Some(range_of(c)), _ => None },
+                _ => None,
+            };
+        }
         // R17: `E?`  ->  (match E { Ok(__v) => __v, Err(__e) => return Err(__e.into()) })
         // (the desugaring of `?` on a Result; Verus keeps the converted error value only
         // when the conversion is an explicit call)
@@ -951,9 +1337,29 @@ impl<'a, 'b, 'ast> Visit<'ast> for BodyV<'a, 'b> {
                     self.fc.inline_map.get(&format!("::{n}")).cloned().filter(|i| first == "Self" || i.owner.as_deref() == Some(first.as_str()))
                 };
                 if let Some(info) = found {
-                    if (info.world == "none" || info.world == self.world) && info.params.len() == e.args.len() && !self.nested_units.contains_key(&format!("{}/{}", self.outer_name, n)) {
+                    let here = range_of(e);
+                    let in_tail = self.closure_depth == 0 && self.tail_call == Some(here) && info.ret_norm == self.ret_norm;
+                    let in_try = self.closure_depth == 0 && self.try_operand == Some(here) && err_key(&info.ret_norm).is_some() && err_key(&info.ret_norm) == err_key(&self.ret_norm);
+                    // the whole body of a closure: `return` / `?` in the helper leave the helper, written
+                    // out they leave the closure - the same thing (the closure's result type is the helper's)
+                    let in_closure_tail = self.closure_tail == Some(here) && !info.is_async;
+                    let mut leave_ok = match info.leaves { 0 => true, 1 => in_try || in_tail || in_closure_tail, _ => in_tail || in_closure_tail };
+                    let mut info = info;
+                    if !leave_ok && !info.is_async {
+                        if let Some(flat) = info.body_flat.clone() {
+                            info.body = flat;
+                            leave_ok = true;
+                        }
+                    }
+                    let async_ok = !info.is_async || awaited;
+                    // a read-only helper inside a unit with the mutable ghost world sees it reborrowed
+                    let ro_in_mut = info.world == "ro" && self.world == "mut";
+                    if leave_ok && async_ok && (info.world == "none" || info.world == self.world || ro_in_mut) && info.params.len() == e.args.len() && !self.nested_units.contains_key(&format!("{}/{}", self.outer_name, n)) {
                         let whole = range_of(e);
                         let mut lets = String::new();
+                        if ro_in_mut {
+                            lets.push_str("let tracked w = &*w; ");
+                        }
                         for (k, (pn, ty, m)) in info.params.iter().enumerate() {
                             lets.push_str(&format!("let {}{}: {} = __i{}; ", if *m { "mut " } else { "" }, pn, ty, k));
                         }
@@ -972,6 +1378,9 @@ impl<'a, 'b, 'ast> Visit<'ast> for BodyV<'a, 'b> {
                             self.fc.edit(ranges[ranges.len() - 1].1, whole.1, format!("; {inner} }})"), "I1.inline_helper");
                         }
                         self.note_call(&n);
+                        for t in info.taints.iter() {
+                            self.taint(format!("(in `{n}`, written out here) {t}"));
+                        }
                         for a in e.args.iter() {
                             self.visit_expr(a);
                         }
@@ -997,6 +1406,7 @@ impl<'a, 'b, 'ast> Visit<'ast> for BodyV<'a, 'b> {
                             let arg = if self.world == "mut" { "Tracked(w)" } else { "crate::shims::ro_violation_world()" };
                             self.fc.edit(whole.0, whole.1, format!("crate::shims::async_std::task::{f}({{ crate::shims::havoc_world({arg}); crate::shims::arbitrary() }})"), "R8.spawn_blocking.opaque");
                             self.fc.degraded.push(format!("unit {}: the body of a spawn_blocking task contains `return` or `?`: task treated as unspecified", self.outer_name));
+                            self.taint("a spawn_blocking task body with `return`/`?` is treated as unspecified".to_string());
                             self.note_call("spawn_blocking");
                             return;
                         }
@@ -1059,11 +1469,21 @@ impl<'a, 'b, 'ast> Visit<'ast> for BodyV<'a, 'b> {
                     return;
                 }
                 if let Some(m) = self.fc.auto_nested.get(&key).cloned() {
+                    self.taint(format!("calls nested `{k1}`, which has no contract"));
                     if m != "none" {
                         self.add_world_arg(e.paren_token.span.close(), !e.args.is_empty(), e.args.trailing_punct(), &m, &k1);
                     }
                     self.visit_call_parts(e);
                     return;
+                }
+            }
+            {
+                let hit = match &k2 {
+                    None => (self.fc.extra_eff.contains_key(&k1) || self.fc.cfg.auto_keys.contains(&k1)) && !self.fc.rebound_names.contains(&k1),
+                    Some(k) => self.fc.extra_eff.contains_key(k) || self.fc.cfg.auto_keys.contains(k),
+                };
+                if hit {
+                    self.taint(format!("calls `{}`, which has no contract", k2.clone().unwrap_or(k1.clone())));
                 }
             }
             if let Some(m) = mode {
@@ -1078,6 +1498,88 @@ impl<'a, 'b, 'ast> Visit<'ast> for BodyV<'a, 'b> {
 
     fn visit_expr_method_call(&mut self, e: &'ast ExprMethodCall) {
         let name = e.method.to_string();
+        // I1m: a method without a contract (of a type of this file) is written out at its call
+        // site when the receiver is known to be of that type: `self` inside an impl of the type, or
+        // `X.field` with the field declared of the type.
+        //   `R.m(a)` -> `({ let __s = &R; let __i0 = a; { let p: T = __i0; BODY[self := __s] } })`
+        if !self.fc.no_inline && e.turbofish.is_none() {
+            if let Some(info) = self.fc.inline_map.get(&format!(".{name}")).cloned() {
+                let owner = info.owner.clone().unwrap_or_default();
+                let owner_base = owner.split('<').next().unwrap_or("").to_string();
+                let recv_ok = match &*e.receiver {
+                    Expr::Path(p) if p.path.is_ident("self") => {
+                        let k = self.outer_name.split('/').next().unwrap_or("");
+                        let k = k.rsplit(" for ").next().unwrap_or(k);
+                        self.closure_depth == 0 && k.split('<').next().unwrap_or("") == owner_base
+                    }
+                    Expr::Field(fe) => match &fe.member {
+                        Member::Named(id) => self.fc.field_types.get(&id.to_string()).map(|t| t.split('<').next().unwrap_or("").trim() == owner_base).unwrap_or(false),
+                        _ => false,
+                    },
+                    _ => false,
+                };
+                let here = range_of(e);
+                let in_try = self.closure_depth == 0 && self.try_operand == Some(here) && err_key(&info.ret_norm).is_some() && err_key(&info.ret_norm) == err_key(&self.ret_norm);
+                let mut leave_ok = info.leaves == 0 || (info.leaves == 1 && in_try);
+                let mut info = info;
+                if !leave_ok {
+                    if let Some(flat) = info.body_flat.clone() {
+                        info.body = flat;
+                        leave_ok = true;
+                    }
+                }
+                let ro_in_mut = info.world == "ro" && self.world == "mut";
+                if info.recv != 0 && recv_ok && leave_ok && !info.is_async && !owner_base.is_empty() && info.params.len() == e.args.len()
+                    && (info.world == "none" || info.world == self.world || ro_in_mut) {
+                    let mut lets = String::new();
+                    if ro_in_mut {
+                        lets.push_str("let tracked w = &*w; ");
+                    }
+                    for (k, (pn, ty, m)) in info.params.iter().enumerate() {
+                        lets.push_str(&format!("let {}{}: {} = __i{}; ", if *m { "mut " } else { "" }, pn, ty, k));
+                    }
+                    let inner = match &info.ret {
+                        Some(t) => format!("{{ {lets}let __r: {t} = {}; __r }}", info.body),
+                        None => format!("{{ {lets}{} }}", info.body),
+                    };
+                    let recv = range_of(&*e.receiver);
+                    let pre = match info.recv { 1 => "({ let __self = &(", 2 => "({ let __self = &mut (", _ => "({ let __self = (" };
+                    self.fc.edit_ord(here.0, recv.0, pre, "I1m.inline_method", -41);
+                    if e.args.is_empty() {
+                        self.fc.edit(recv.1, here.1, format!("); {inner} }})"), "I1m.inline_method");
+                    } else {
+                        let ranges: Vec<(usize, usize)> = e.args.iter().map(|a| range_of(a)).collect();
+                        self.fc.edit(recv.1, ranges[0].0, "); let __i0 = ", "I1m.inline_method");
+                        for k in 1..ranges.len() {
+                            self.fc.edit(ranges[k - 1].1, ranges[k].0, format!("; let __i{k} = "), "I1m.inline_method");
+                        }
+                        self.fc.edit(ranges[ranges.len() - 1].1, here.1, format!("; {inner} }})"), "I1m.inline_method");
+                    }
+                    self.note_call(&name);
+                    for t in info.taints.iter() {
+                        self.taint(format!("(in `{name}`, written out here) {t}"));
+                    }
+                    self.visit_expr(&e.receiver);
+                    for a in e.args.iter() {
+                        self.visit_expr(a);
+                    }
+                    return;
+                }
+            }
+        }
+        // R12b: `p.as_ref()` on a parameter whose `AsRef<T>` generic was instantiated at `&T` (R12) is
+        // the identity: written as `p` (left as a call, its target type would have to be inferred
+        // from the context, which a plain `&T` receiver leaves ambiguous)
+        if name == "as_ref" && e.args.is_empty() && e.turbofish.is_none() {
+            if let Expr::Path(p) = &*e.receiver {
+                if p.path.get_ident().map(|i| self.asref_idents.contains(&i.to_string())).unwrap_or(false) && self.closure_depth == 0 {
+                    let whole = range_of(e);
+                    let recv = range_of(&*e.receiver);
+                    self.fc.edit(recv.1, whole.1, "", "R12b.as_ref");
+                    return;
+                }
+            }
+        }
         // R19: `X[a..b].copy_from_slice(src)` -> crate::shims::slices::copy_into(&mut *X, a, b, src [, world])
         if name == "copy_from_slice" && e.args.len() == 1 {
             if let Expr::Index(ix) = &*e.receiver {
@@ -1130,7 +1632,10 @@ impl<'a, 'b, 'ast> Visit<'ast> for BodyV<'a, 'b> {
                     IdentScan { out: &mut is }.visit_expr(&c.body);
                     is.iter().any(|n| self.fc.extra_eff.get(n).map(|m| m.starts_with("mut")).unwrap_or(false))
                 };
-                if (sc.mode == 2 || ext_mut) && c.asyncness.is_none() && c.inputs.len() <= 1 && self.world == "mut" && !leaves_closure(&c.body) {
+                // `b.then(|| E)` is always written out as `if b { Some(E) } else { None }` (there is no
+                // specification of `bool::then` over an arbitrary closure)
+                let plain_then = name == "then" && c.inputs.is_empty();
+                if (((sc.mode == 2 || ext_mut) && self.world == "mut") || plain_then) && c.asyncness.is_none() && c.inputs.len() <= 1 && !leaves_closure(&c.body) {
                     let whole = range_of(e);
                     let recv = range_of(&*e.receiver);
                     let body = range_of(&*c.body);
@@ -1170,6 +1675,9 @@ impl<'a, 'b, 'ast> Visit<'ast> for BodyV<'a, 'b> {
             self.fc.edit(r.0, r.1, newname, "R10.iter");
         }
         let key = format!(".{name}");
+        if (self.fc.extra_eff.contains_key(&key) && !self.fc.cfg.eff_method.contains_key(&key)) || (self.fc.cfg.auto_keys.contains(&key) && self.fc.cfg.method_argc.get(&name).map(|a| a.contains(&e.args.len())).unwrap_or(false)) {
+            self.taint(format!("calls method `{name}`, which has no contract"));
+        }
         if let Some(m) = self.fc.cfg.eff_method.get(&key).cloned().or_else(|| self.fc.extra_eff.get(&key).cloned()) {
             let (mode, qual) = match m.split_once('/') {
                 Some((a, b)) => (a.to_string(), b.to_string()),
@@ -1276,7 +1784,19 @@ impl<'a, 'b, 'ast> Visit<'ast> for BodyV<'a, 'b> {
                 self.visit_type(t);
             }
         }
+        let saved_tail = self.closure_tail.take();
+        if c.asyncness.is_none() {
+            self.closure_tail = match &*c.body {
+                Expr::Call(cl) => Some(range_of(cl)),
+                Expr::Block(b) if b.label.is_none() && b.block.stmts.len() == 1 => match b.block.stmts.last() {
+                    Some(Stmt::Expr(Expr::Call(cl), None)) => Some(range_of(cl)),
+                    _ => None,
+                },
+                _ => None,
+            };
+        }
         self.visit_expr(&c.body);
+        self.closure_tail = saved_tail;
         self.closure_depth -= 1;
         self.closure_ctx = saved_ctx;
     }
@@ -1426,6 +1946,30 @@ impl<'a, 'b, 'ast> Visit<'ast> for BodyV<'a, 'b> {
             }
             return;
         }
+        // R26: a guarded arm followed by an arm that covers the same values without binding anything
+        // (`_`, or the same pattern with `_` for its bindings):
+        //   `P if G => A, R => D`  ->  `P => if (G) { A } else { D }, R => D`
+        // (Verus forgets everything reachable through `&mut` parameters in the arms after a guarded
+        // arm; the written-out form is what the guard means when nothing else can match in between)
+        for i in 0..e.arms.len().saturating_sub(1) {
+            let arm = &e.arms[i];
+            let next = &e.arms[i + 1];
+            if let Some((if_tok, g)) = &arm.guard {
+                let covers = next.guard.is_none() && (matches!(&next.pat, Pat::Wild(_)) || pat_wild(&arm.pat) == pat_wild(&next.pat))
+                    && !leaves_closure_only_break(&next.body);
+                if covers {
+                    let it = br(if_tok.span);
+                    let gr = range_of(&**g);
+                    let fa = (br(arm.fat_arrow_token.spans[0]).0, br(arm.fat_arrow_token.spans[1]).1);
+                    let body = range_of(&*arm.body);
+                    let d = range_of(&*next.body);
+                    self.fc.edit(it.0, it.1, "=> if (", "R26.guard");
+                    self.fc.edit_ord(gr.1, gr.1, ")", "R26.guard", -50);
+                    self.fc.edit(fa.0, fa.1, "{", "R26.guard");
+                    self.fc.edit_ord(body.1, body.1, format!(" }} else {{ \u{1}{}:{}\u{2} }}", d.0, d.1), "R26.guard", 50);
+                }
+            }
+        }
         visit::visit_expr_match(self, e);
     }
 
@@ -1470,16 +2014,18 @@ impl<'a, 'b, 'ast> Visit<'ast> for BodyV<'a, 'b> {
                 let e: Expr = input.parse()?;
                 let c: Token![,] = input.parse()?;
                 let _p = Pat::parse_multi_with_leading_vert(input)?;
+                let mut if_span = None;
                 let g = if input.peek(Token![if]) {
-                    let _i: Token![if] = input.parse()?;
+                    let i: Token![if] = input.parse()?;
+                    if_span = Some(br(i.span));
                     Some(input.parse::<Expr>()?)
                 } else {
                     None
                 };
                 let t = input.parse::<Option<Token![,]>>()?;
-                Ok((e, c, g, t))
+                Ok((e, c, g, t, if_span))
             });
-            if let Ok((e, c, g, t)) = parsed {
+            if let Ok((e, c, g, t, if_span)) = parsed {
                 let er = range_of(&e);
                 let cr = br(c.span);
                 let close = match &mac.delimiter {
@@ -1490,7 +2036,14 @@ impl<'a, 'b, 'ast> Visit<'ast> for BodyV<'a, 'b> {
                 let tail_start = t.map(|t| br(t.span).0).unwrap_or(close.0);
                 self.fc.edit(whole.0, er.0, "(match ", "R24.matches");
                 self.fc.edit(er.1, cr.1, " {", "R24.matches");
-                self.fc.edit(tail_start, whole.1, " => true, _ => false })", "R24.matches");
+                match if_span {
+                    // with a guard: the R26 form `PAT => if (GUARD) { true } else { false }, _ => false`
+                    Some(is) => {
+                        self.fc.edit(is.0, is.1, "=> if (", "R24.matches");
+                        self.fc.edit(tail_start, whole.1, ") { true } else { false }, _ => false })", "R24.matches");
+                    }
+                    None => self.fc.edit(tail_start, whole.1, " => true, _ => false })", "R24.matches"),
+                }
                 self.visit_expr(&e);
                 if let Some(g) = g {
                     self.visit_expr(&g);
@@ -1551,7 +2104,9 @@ impl<'a, 'b, 'ast> Visit<'ast> for BodyV<'a, 'b> {
         let saved = self.fc.no_inline;
         let saved_probe = self.fc.no_probe;
         self.fc.no_probe = !listed;
+        let taints_before = self.fc.taints.len();
         process_fn(self.fc, &f.attrs, &f.vis, &f.sig, Some(&f.block), &u, self.nested_units, &key, false);
+        let nested_taints: Vec<String> = self.fc.taints[taints_before..].iter().map(|t| t.split_once('|').map(|x| x.1.to_string()).unwrap_or_default()).collect();
         self.fc.no_probe = saved_probe;
         self.fc.no_inline = saved;
         if !listed && self.fc.tail_calls.contains_key(&key) && !self.fc.no_inline {
@@ -1583,7 +2138,7 @@ impl<'a, 'b, 'ast> Visit<'ast> for BodyV<'a, 'b> {
                         }
                     }
                 }
-                self.fc.inline_map.insert(key.clone(), InlineInfo { params, ret: None, body, world: u.world.clone(), owner: None });
+                self.fc.inline_map.insert(key.clone(), InlineInfo { params, ret: None, body, world: u.world.clone(), owner: None, taints: nested_taints, leaves: 0, ret_norm: String::new(), is_async: false, recv: 0, body_flat: None });
                 // its own copy keeps the signature only (it is verified where it is written out)
                 let st = range_of(f).0;
                 self.fc.edit_ord(st, st, "#[verifier::external_body]\n", "I1.nested_tail", -31);
@@ -1669,6 +2224,35 @@ fn process_fn(
     // the same order, different names)
     let now = fn_locals(sig, block);
     fc.locals_out.insert(u.id.clone(), now.clone());
+    fc.locals_out.insert(format!("sig:{}", u.id), vec![sig_key(sig)]);
+    // T1: the method names a unit calls (compared with the pinned tree's: a NEW call of a method
+    // whose shim promises nothing taints the unit)
+    if let Some(b) = block {
+        let mut ms: HashSet<String> = HashSet::new();
+        MethodScan { out: &mut ms }.visit_block(b);
+        struct PathCalls<'o> { out: &'o mut HashSet<String> }
+        impl<'o, 'ast> Visit<'ast> for PathCalls<'o> {
+            fn visit_expr_call(&mut self, e: &'ast ExprCall) {
+                if let Expr::Path(p) = &*e.func {
+                    if let Some(l) = p.path.segments.last() {
+                        self.out.insert(l.ident.to_string());
+                    }
+                }
+                visit::visit_expr_call(self, e);
+            }
+            fn visit_macro(&mut self, m: &'ast Macro) {
+                if let Ok(args) = m.parse_body_with(Punctuated::<Expr, Token![,]>::parse_terminated) {
+                    for a in args.iter() {
+                        self.visit_expr(a);
+                    }
+                }
+            }
+        }
+        PathCalls { out: &mut ms }.visit_block(b);
+        let mut v: Vec<String> = ms.into_iter().filter(|m| !m.contains("::")).collect();
+        v.sort();
+        fc.locals_out.insert(format!("mcalls:{}", u.id), v);
+    }
     if matches!(_vis, Visibility::Inherited) && !in_trait_decl {
         fc.private_units.push(u.id.clone());
     }
@@ -1976,7 +2560,25 @@ fn process_fn(
                         calls_seen: Vec::new(),
                         claimed_hints: HashSet::new(),
                         closure_counts: HashMap::new(),
+        ret_norm: sig.output.to_token_stream().to_string(),
+        tail_call: block.and_then(|b| match b.stmts.last() {
+            Some(Stmt::Expr(Expr::Call(c), None)) => Some(range_of(c)),
+            Some(Stmt::Expr(Expr::Await(a), None)) => match &*a.base { Expr::Call(c) => Some(range_of(c)), _ => None },
+            _ => None,
+        }),
+        try_operand: None,
+        closure_tail: None,
+        asref_idents: HashSet::new(),
     };
+    for inp in sig.inputs.iter() {
+        if let FnArg::Typed(pt) = inp {
+            if let (Pat::Ident(pi), Type::Path(tp)) = (&*pt.pat, &*pt.ty) {
+                if tp.qself.is_none() && tp.path.get_ident().map(|i| bv.asref_params.contains_key(&i.to_string())).unwrap_or(false) {
+                    bv.asref_idents.insert(pi.ident.to_string());
+                }
+            }
+        }
+    }
     for inp in sig.inputs.iter() {
         match inp {
             FnArg::Typed(pt) => {
@@ -2050,6 +2652,7 @@ fn process_fn(
     for k in ul {
         if !u.drop_body {
             bv.fc.degraded.push(format!("unit {}: contract names loop #{k} but the function has no such loop (annotation dropped)", u.id));
+            bv.fc.taints.push(format!("{}|the invariant of loop #{k} was dropped (no such loop any more)", u.id));
         }
     }
     for k in uc {
@@ -2061,6 +2664,7 @@ fn process_fn(
     for k in ut {
         if !u.drop_body {
             bv.fc.degraded.push(format!("unit {}: contract names closure `{k}` but the function has none (annotation dropped)", u.id));
+            bv.fc.taints.push(format!("{}|the contract of closure `{k}` was dropped (no such closure any more)", u.id));
         }
     }
     if !u.drop_body && bv.loop_no > bv.used_loops.len() {
@@ -2073,11 +2677,13 @@ fn process_fn(
         if !u.id.starts_with("auto:") {
             bv.fc.degraded.push(format!("unit {}: {} loop(s) without a contract (no invariant; termination not checked)", u.id, bv.loop_no - bv.used_loops.len()));
         }
+        bv.fc.taints.push(format!("{}|{} loop(s) without an invariant", u.id, bv.loop_no - bv.used_loops.len()));
     }
     for h in &u.hints {
         let anchor = jstr(h, "anchor");
         if !u.drop_body && !bv.fc.rule_counts.contains_key(&format!("hint:{}", anchor)) {
             bv.fc.degraded.push(format!("unit {}: hint anchor `{}` not found (annotation dropped)", u.id, anchor));
+            bv.fc.taints.push(format!("{}|proof hint `{}` was dropped (its anchor is gone)", u.id, anchor));
         }
     }
 }
@@ -2328,7 +2934,38 @@ fn apply_edits(src: &str, range: (usize, usize), edits: &[Edit], errors: &mut Ve
         pos = e.end;
     }
     out.push_str(&src[pos..range.1]);
+    // copy placeholders `\u{1}a:b\u{2}` (rule R26): the edited text of another range of the source
+    let mut guard = 0;
+    while let Some(i) = out.find('\u{1}') {
+        guard += 1;
+        let j = match out[i..].find('\u{2}') { Some(j) => i + j, None => break };
+        let spec = out[i + 1..j].to_string();
+        let rep = match spec.split_once(':').and_then(|(a, b)| Some((a.parse::<usize>().ok()?, b.parse::<usize>().ok()?))) {
+            Some((a, b)) if guard < 64 && a <= b && b <= src.len() => apply_edits(src, (a, b), edits, errors).0,
+            _ => {
+                errors.push("bad copy placeholder".to_string());
+                String::new()
+            }
+        };
+        out.replace_range(i..j + '\u{2}'.len_utf8(), &rep);
+    }
     (out, log)
+}
+
+/// a pattern with its bindings replaced by `_` (rule R26: does the next arm cover this one?)
+fn pat_wild(p: &Pat) -> String {
+    match p {
+        Pat::Wild(_) => "_".to_string(),
+        Pat::Ident(pi) if pi.subpat.is_none() => {
+            let n = pi.ident.to_string();
+            if n.chars().next().map(|c| c.is_uppercase()).unwrap_or(false) { n } else { "_".to_string() }
+        }
+        Pat::TupleStruct(ts) => format!("{}({})", ts.path.to_token_stream().to_string().replace(' ', ""), ts.elems.iter().map(pat_wild).collect::<Vec<_>>().join(",")),
+        Pat::Tuple(t) => format!("({})", t.elems.iter().map(pat_wild).collect::<Vec<_>>().join(",")),
+        Pat::Reference(r) => format!("&{}", pat_wild(&r.pat)),
+        Pat::Paren(pp) => pat_wild(&pp.pat),
+        other => other.to_token_stream().to_string().replace(' ', ""),
+    }
 }
 
 fn line_of(src: &str, byte: usize) -> usize {
@@ -2412,6 +3049,8 @@ fn main() {
         world_ty: cfgv.get("world_ty").and_then(|x| x.as_str()).unwrap_or("crate::shims::World").to_string(),
         vacuity_probe: cfgv.get("vacuity_probe").and_then(|x| x.as_bool()).unwrap_or(false),
         no_inline_run: cfgv.get("no_inline").and_then(|x| x.as_bool()).unwrap_or(false),
+        no_inline_ids: cfgv.get("no_inline_ids").and_then(|x| x.as_array()).map(|a| a.iter().filter_map(|x| x.as_str().map(|s| s.to_string())).collect()).unwrap_or_default(),
+        auto_keys: cfgv.get("auto_keys").and_then(|x| x.as_array()).map(|a| a.iter().filter_map(|x| x.as_str().map(|s| s.to_string())).collect()).unwrap_or_default(),
     };
     let mut out_files = Map::new();
     let mut all_errors: Vec<String> = vec![];
@@ -2480,6 +3119,105 @@ fn main() {
         let mut auto_items: Vec<String> = vec![];
         let mut auto_types: HashSet<String> = HashSet::new();
         let mut extra_eff: HashMap<String, String> = HashMap::new();
+        // M1: a nested `fn inner` that was moved to module level (the `fn outer<P: AsRef<..>>(..) {
+        // fn inner(..) {..} inner(..) }` idiom undone) keeps its contract: when `outer` has no
+        // nested `inner` any more and its tail expression calls a module-level function without a
+        // contract that has exactly the signature the contract of `inner` was written against,
+        // the contract is CHECKED against that function
+        let mut rebound: Vec<String> = vec![];
+        let mut rebound_names: HashSet<String> = HashSet::new();
+        {
+            let top: HashMap<String, &ItemFn> = file.items.iter().filter_map(|it| match it {
+                Item::Fn(f) if cfg.env.attrs_on(&f.attrs).unwrap_or(false) => Some((f.sig.ident.to_string(), f)),
+                _ => None,
+            }).collect();
+            let keys: Vec<String> = units.keys().filter(|k| k.starts_with("fn:") && k.contains('/')).cloned().collect();
+            for k in keys {
+                let (outer, inner) = match k[3..].split_once('/') { Some(x) => x, None => continue };
+                let of = match top.get(outer) { Some(f) => f, None => continue };
+                if of.block.stmts.iter().any(|st| matches!(st, Stmt::Item(Item::Fn(nf)) if nf.sig.ident == inner)) {
+                    continue;
+                }
+                let call = match of.block.stmts.last() {
+                    Some(Stmt::Expr(Expr::Call(c), None)) => c,
+                    Some(Stmt::Expr(Expr::Await(a), None)) => match &*a.base { Expr::Call(c) => c, _ => continue },
+                    _ => continue,
+                };
+                let g = match &*call.func {
+                    Expr::Path(p) => match p.path.get_ident() { Some(i) => i.to_string(), None => continue },
+                    _ => continue,
+                };
+                let gf = match top.get(&g) { Some(f) => f, None => continue };
+                if units.contains_key(&format!("fn:{g}")) {
+                    continue;
+                }
+                let u = units[&k].clone();
+                if u.sig_base.is_empty() || u.sig_base != sig_key(&gf.sig) {
+                    continue;
+                }
+                units.remove(&k);
+                let mut u2 = u.clone();
+                u2.rename = None;
+                units.insert(format!("fn:{g}"), u2);
+                extra_eff.insert(g.clone(), u.world.clone());
+                rebound_names.insert(g.clone());
+                rebound.push(format!("{fname}: the contract of nested `{outer}::{inner}` ({}) is checked against module-level `{g}` (same signature, called in tail position of `{outer}`)", u.id));
+            }
+        }
+        // M2: the converse - a nested `fn inner` that was written out into its `outer` (which now
+        // starts with `let cache = cache.as_ref();`): the loop / closure / hint annotations of
+        // `inner` are CHECKED against `outer` when `outer` has none of its own
+        {
+            let keys: Vec<String> = units.keys().filter(|k| k.matches('/').count() >= 1 && !rebound_names.contains(*k)).cloned().collect();
+            for k in keys {
+                let (okey, inner) = match k.rsplit_once('/') { Some(x) => x, None => continue };
+                if !units.contains_key(okey) {
+                    continue;
+                }
+                // the block of the outer function
+                let mut oblock: Option<&Block> = None;
+                for it in &file.items {
+                    match it {
+                        Item::Fn(f) if okey == format!("fn:{}", f.sig.ident) && cfg.env.attrs_on(&f.attrs).unwrap_or(false) => oblock = Some(&*f.block),
+                        Item::Impl(im) if cfg.env.attrs_on(&im.attrs).unwrap_or(false) => {
+                            let ik = impl_key(im);
+                            for ii in &im.items {
+                                if let ImplItem::Fn(m) = ii {
+                                    if okey == format!("impl:{}/{}", ik, m.sig.ident) && cfg.env.attrs_on(&m.attrs).unwrap_or(false) {
+                                        oblock = Some(&m.block);
+                                    }
+                                }
+                            }
+                        }
+                        _ => {}
+                    }
+                }
+                let ob = match oblock { Some(b) => b, None => continue };
+                if ob.stmts.iter().any(|st| matches!(st, Stmt::Item(Item::Fn(nf)) if nf.sig.ident == inner)) {
+                    continue;
+                }
+                let iu = units[&k].clone();
+                let ou = units.get_mut(okey).unwrap();
+                if ou.drop_body || !(ou.loops.is_empty() && ou.closures.is_empty() && ou.closures_by_text.is_empty() && ou.hints.is_empty())
+                    || (iu.loops.is_empty() && iu.closures.is_empty() && iu.closures_by_text.is_empty() && iu.hints.is_empty() && iu.body_open.is_empty()) {
+                    continue;
+                }
+                ou.loops = iu.loops.clone();
+                ou.closures = iu.closures.clone();
+                ou.closures_by_text = iu.closures_by_text.clone();
+                ou.hints = iu.hints.clone();
+                if ou.body_open.is_empty() {
+                    ou.body_open = iu.body_open.clone();
+                }
+                if ou.str_slices.is_empty() {
+                    ou.str_slices = iu.str_slices.clone();
+                }
+                if ou.attrs.is_empty() {
+                    ou.attrs = iu.attrs.clone();
+                }
+                rebound.push(format!("{fname}: nested `{inner}` of `{okey}` is gone: its loop/closure/hint annotations ({}) are checked against `{okey}` itself", iu.id));
+            }
+        }
         {
             let mut top_fns: HashMap<String, &ItemFn> = HashMap::new();
             let mut top_vals: HashSet<String> = HashSet::new();
@@ -2790,7 +3528,7 @@ fn main() {
                 }
             }
         }
-        let mut fc = FileCtx { cfg: &cfg, src: &src, edits: vec![], rule_counts: BTreeMap::new(), errors: vec![], warnings: vec![], degraded: vec![], extra_eff: extra_eff.clone(), fname: fname.clone(), ro_violations: vec![], field_types: field_types.clone(), locals_out: BTreeMap::new(), private_units: vec![], code_renames: code_renames.clone(), auto_nested: HashMap::new(), tail_calls: HashMap::new(), inline_map: HashMap::new(), no_inline: cfg.no_inline_run, no_probe: false };
+        let mut fc = FileCtx { cfg: &cfg, src: &src, edits: vec![], rule_counts: BTreeMap::new(), errors: vec![], warnings: vec![], degraded: vec![], extra_eff: extra_eff.clone(), fname: fname.clone(), ro_violations: vec![], field_types: field_types.clone(), locals_out: BTreeMap::new(), private_units: vec![], code_renames: code_renames.clone(), auto_nested: HashMap::new(), tail_calls: HashMap::new(), inline_map: HashMap::new(), no_inline: cfg.no_inline_run, no_probe: false, taints: vec![], rebound_names: rebound_names.clone() };
         // segments to keep: (start, end, kind, name)
         let mut segs: Vec<(usize, usize, String, String)> = vec![];
         let mut found_units: HashSet<String> = HashSet::new();
@@ -2812,7 +3550,7 @@ fn main() {
                 let name = f.sig.ident.to_string();
                 let at = format!("fn:{}", name);
                 let u = match units.get(&at) {
-                    Some(u) if u.id.starts_with("auto:") && !u.drop_body => u.clone(),
+                    Some(u) if u.id.starts_with("auto:") && !u.drop_body && !cfg.no_inline_ids.contains(&u.id) => u.clone(),
                     _ => continue,
                 };
                 if !cfg.env.attrs_on(&f.attrs).unwrap_or(false) {
@@ -2824,10 +3562,11 @@ fn main() {
                 });
                 let mut ids = HashSet::new();
                 IdentScan { out: &mut ids }.visit_block(&f.block);
-                if !simple_params || !f.sig.generics.params.is_empty() || f.sig.asyncness.is_some() || block_leaves(&f.block) || ids.contains(&name) {
+                let lk = match leave_kind(&f.block) { Some(k) => k, None => continue };
+                if !simple_params || !f.sig.generics.params.is_empty() || ids.contains(&name) {
                     continue;
                 }
-                let mut scratch = FileCtx { cfg: &cfg, src: &src, edits: vec![], rule_counts: BTreeMap::new(), errors: vec![], warnings: vec![], degraded: vec![], extra_eff: extra_eff.clone(), fname: fname.clone(), ro_violations: vec![], field_types: field_types.clone(), locals_out: BTreeMap::new(), private_units: vec![], code_renames: code_renames.clone(), auto_nested: HashMap::new(), tail_calls: HashMap::new(), inline_map: HashMap::new(), no_inline: true, no_probe: false };
+                let mut scratch = FileCtx { cfg: &cfg, src: &src, edits: vec![], rule_counts: BTreeMap::new(), errors: vec![], warnings: vec![], degraded: vec![], extra_eff: extra_eff.clone(), fname: fname.clone(), ro_violations: vec![], field_types: field_types.clone(), locals_out: BTreeMap::new(), private_units: vec![], code_renames: code_renames.clone(), auto_nested: HashMap::new(), tail_calls: HashMap::new(), inline_map: HashMap::new(), no_inline: true, no_probe: false, taints: vec![], rebound_names: rebound_names.clone() };
                 process_fn(&mut scratch, &f.attrs, &f.vis, &f.sig, Some(&f.block), &u, &nested, &name, false);
                 let mut errs = vec![];
                 let (body, _) = apply_edits(&src, range_of(&*f.block), &scratch.edits, &mut errs);
@@ -2849,7 +3588,13 @@ fn main() {
                     ReturnType::Type(_, t) => Some(apply_edits(&src, range_of(&**t), &scratch.edits, &mut errs).0),
                     ReturnType::Default => None,
                 };
-                fc.inline_map.insert(name.clone(), InlineInfo { params, ret, body, world: u.world.clone(), owner: None });
+                let body_flat = if lk > 0 {
+                    let rn = f.sig.output.to_token_stream().to_string();
+                    let tk = if err_key(&rn).is_some() { 1 } else if rn.replace(' ', "").starts_with("->Option<") { 2 } else { 0 };
+                    let mut el = Elim { src: &src, edits: &scratch.edits, try_kind: tk, fuel: 48, bad: std::cell::Cell::new(false) };
+                    el.seq(&[WorkItem::Stmts(&f.block.stmts, true)]).filter(|_| !el.bad.get())
+                } else { None };
+                fc.inline_map.insert(name.clone(), InlineInfo { body_flat, recv: 0, leaves: lk, ret_norm: f.sig.output.to_token_stream().to_string(), is_async: f.sig.asyncness.is_some(), params, ret, body, world: u.world.clone(), owner: None, taints: scratch.taints.iter().map(|t| t.split_once('|').map(|x| x.1.to_string()).unwrap_or_default()).collect() });
                 inline_ats.push(at.clone());
             }
         }
@@ -2867,20 +3612,38 @@ fn main() {
                         let name = m.sig.ident.to_string();
                         let at = format!("impl:{}/{}", key, name);
                         let u = match units.get(&at) {
-                            Some(u) if u.id.starts_with("auto:") && !u.drop_body => u.clone(),
+                            Some(u) if u.id.starts_with("auto:") && !u.drop_body && !cfg.no_inline_ids.contains(&u.id) => u.clone(),
                             _ => continue,
                         };
+                        // I1m: `&self` / `&mut self` / `self` methods are written out too (see the call site)
+                        let recv_kind: u8 = match m.sig.inputs.first() {
+                            Some(FnArg::Receiver(r)) if r.colon_token.is_none() => match (&r.reference, r.mutability.is_some()) {
+                                (Some(_), false) => 1,
+                                (Some(_), true) => 2,
+                                (None, false) => 3,
+                                (None, true) => 9,
+                            },
+                            Some(FnArg::Receiver(_)) => 9,
+                            _ => 0,
+                        };
+                        if recv_kind == 9 {
+                            continue;
+                        }
                         let simple_params = m.sig.inputs.iter().all(|a| match a {
                             FnArg::Typed(pt) => matches!(&*pt.pat, Pat::Ident(pi) if pi.by_ref.is_none() && pi.subpat.is_none()),
-                            _ => false,
+                            FnArg::Receiver(_) => true,
                         });
                         let mut ids = HashSet::new();
                         MethodScan { out: &mut ids }.visit_block(&m.block);
-                        if !simple_params || !m.sig.generics.params.is_empty() || m.sig.asyncness.is_some() || block_leaves(&m.block)
-                            || ids.contains(&format!("Self::{name}")) || !cfg.env.attrs_on(&m.attrs).unwrap_or(false) || fc.inline_map.contains_key(&format!("::{name}")) {
+                        if recv_kind != 0 && ids.contains(&name) {
                             continue;
                         }
-                        let mut scratch = FileCtx { cfg: &cfg, src: &src, edits: vec![], rule_counts: BTreeMap::new(), errors: vec![], warnings: vec![], degraded: vec![], extra_eff: extra_eff.clone(), fname: fname.clone(), ro_violations: vec![], field_types: field_types.clone(), locals_out: BTreeMap::new(), private_units: vec![], code_renames: code_renames.clone(), auto_nested: HashMap::new(), tail_calls: HashMap::new(), inline_map: HashMap::new(), no_inline: true, no_probe: false };
+                        let lk = match leave_kind(&m.block) { Some(k) => k, None => continue };
+                        if !simple_params || !m.sig.generics.params.is_empty()
+                            || ids.contains(&format!("Self::{name}")) || !cfg.env.attrs_on(&m.attrs).unwrap_or(false) || fc.inline_map.contains_key(&format!("::{name}")) || fc.inline_map.contains_key(&format!(".{name}")) {
+                            continue;
+                        }
+                        let mut scratch = FileCtx { cfg: &cfg, src: &src, edits: vec![], rule_counts: BTreeMap::new(), errors: vec![], warnings: vec![], degraded: vec![], extra_eff: extra_eff.clone(), fname: fname.clone(), ro_violations: vec![], field_types: field_types.clone(), locals_out: BTreeMap::new(), private_units: vec![], code_renames: code_renames.clone(), auto_nested: HashMap::new(), tail_calls: HashMap::new(), inline_map: HashMap::new(), no_inline: true, no_probe: false, taints: vec![], rebound_names: rebound_names.clone() };
                         process_fn(&mut scratch, &m.attrs, &m.vis, &m.sig, Some(&m.block), &u, &nested, &name, false);
                         let mut errs = vec![];
                         let (body, _) = apply_edits(&src, range_of(&m.block), &scratch.edits, &mut errs);
@@ -2902,10 +3665,19 @@ fn main() {
                         // `Self` means the impl's type, also where the body is written out elsewhere
                         let mut selfmap: HashMap<String, String> = HashMap::new();
                         selfmap.insert("Self".to_string(), src[range_of(&*im.self_ty).0..range_of(&*im.self_ty).1].to_string());
+                        if recv_kind != 0 {
+                            selfmap.insert("self".to_string(), "__self".to_string());
+                        }
                         let body = subst_idents(&body, &selfmap);
                         let params: Vec<(String, String, bool)> = params.into_iter().map(|(a, t, m)| (a, subst_idents(&t, &selfmap), m)).collect();
                         let ret = ret.map(|t| subst_idents(&t, &selfmap));
-                        fc.inline_map.insert(format!("::{name}"), InlineInfo { params, ret, body, world: u.world.clone(), owner: Some(self_ty_key(&im.self_ty)) });
+                        let body_flat = if lk > 0 {
+                            let rn = m.sig.output.to_token_stream().to_string();
+                            let tk = if err_key(&rn).is_some() { 1 } else if rn.replace(' ', "").starts_with("->Option<") { 2 } else { 0 };
+                            let mut el = Elim { src: &src, edits: &scratch.edits, try_kind: tk, fuel: 48, bad: std::cell::Cell::new(false) };
+                            el.seq(&[WorkItem::Stmts(&m.block.stmts, true)]).filter(|_| !el.bad.get()).map(|t| subst_idents(&t, &selfmap))
+                        } else { None };
+                        fc.inline_map.insert(if recv_kind == 0 { format!("::{name}") } else { format!(".{name}") }, InlineInfo { body_flat, recv: recv_kind, leaves: lk, ret_norm: subst_idents(&m.sig.output.to_token_stream().to_string(), &selfmap), is_async: m.sig.asyncness.is_some(), params, ret, body, world: u.world.clone(), owner: Some(self_ty_key(&im.self_ty)), taints: scratch.taints.iter().map(|t| t.split_once('|').map(|x| x.1.to_string()).unwrap_or_default()).collect() });
                         inlined_helpers.push(u.id.clone());
                         inline_ats.push(at.clone());
                     }
@@ -3028,6 +3800,7 @@ fn main() {
                         calls_seen: Vec::new(),
                         claimed_hints: HashSet::new(),
                         closure_counts: HashMap::new(),
+                        ret_norm: String::new(), tail_call: None, try_operand: None, closure_tail: None, asref_idents: HashSet::new(),
                     };
                     match item {
                         Item::Struct(s) => make_pub(bv.fc, &s.vis, br(s.struct_token.span()).0),
@@ -3212,6 +3985,7 @@ fn main() {
                         calls_seen: Vec::new(),
                         claimed_hints: HashSet::new(),
                         closure_counts: HashMap::new(),
+                        ret_norm: String::new(), tail_call: None, try_operand: None, closure_tail: None, asref_idents: HashSet::new(),
                         };
                         bv.visit_type(&im.self_ty);
                         if !inherent {
@@ -3294,7 +4068,7 @@ fn main() {
         out_files.insert(
             fname.clone(),
             json!({ "segments": rendered, "dropped": dropped, "warnings": fc.warnings, "degraded": fc.degraded,
-                    "auto_units": auto_names, "auto_items": auto_items, "ro_violations": fc.ro_violations, "missing_units": missing_units, "lifted": lift_log, "lift_missing": lift_missing, "locals": fc.locals_out, "inlined_helpers": inlined_helpers, "private_units": fc.private_units, "auto_effects": extra_eff }),
+                    "auto_units": auto_names, "auto_items": auto_items, "ro_violations": fc.ro_violations, "missing_units": missing_units, "lifted": lift_log, "lift_missing": lift_missing, "locals": fc.locals_out, "inlined_helpers": inlined_helpers, "private_units": fc.private_units, "auto_effects": extra_eff, "taints": fc.taints, "rebound": rebound }),
         );
     }
     let out = json!({ "files": out_files, "errors": all_errors, "rule_counts": total_rules });
